@@ -1,6 +1,9 @@
 """C12 — flow estimates depend only on relative azimuthal geometry.
 
-Tie T: selector lists / dispatch chains / keyword defaults of the six estimators -> Gen/FlowSelectors.lean.
+Tie T: selector lists / dispatch chains / keyword defaults of the six estimators -> Gen/FlowSelectors.lean; the value path of
+ReactionPlaneFlow / ScalarProductFlow / EventPlaneFlow (integrated_flow, differential_flow with all helpers inlined) ->
+Gen/FlowCore.lean (harness/translate/flowcore.py), proved equal to the model in Lemmas/FlowCoreGen.lean; the driver's
+`g<op>` ops run the generated functions and are compared with the real code as well.
 Tie C: the executable model Core/Flow.lean (Float driver) against the real ReactionPlaneFlow /
 ScalarProductFlow / EventPlaneFlow on the same generated samples (u = exp(i n phi) taken from the real
 particles; the scipy resolution correction of the event-plane method is supplied by the harness and its
@@ -37,10 +40,32 @@ def translate(ctx):
     text, regions, _, _ = flowsel.render(common.read_src)
     changed = common.write_if_changed(common.LEAN / "SparkxVerif/Gen/FlowSelectors.lean", text)
     golden = common.LEAN / "golden/Gen/FlowSelectors.lean"
-    ctx.cov["gen_equals_golden"] = golden.exists() and golden.read_text() == text
+    same = golden.exists() and golden.read_text() == text
     if changed:
         ctx.notes.append("Gen/FlowSelectors.lean regenerated (source differs from last run)")
-    return regions
+    # computational core of the reaction-plane / scalar-product / event-plane estimators (Gen/FlowCore.lean)
+    from translate import flowcore
+    gcore = common.LEAN / "golden/Gen/FlowCore.lean"
+    try:
+        ctext, cregions = flowcore.render(common.read_src)
+    except Exception as e:
+        # the selector tables keep their tie T; for the core the committed golden definitions take over and the
+        # (enlarged) correspondence run has to carry them
+        if not gcore.exists():
+            raise
+        common.write_if_changed(common.LEAN / "SparkxVerif/Gen/FlowCore.lean", gcore.read_text())
+        ctx.fallback = True
+        ctx.cov["tie"] = ("selector tables: translated; computational core: correspondence-only (translator could not "
+                          "re-derive: %s: %s)" % (type(e).__name__, str(e)[:300]))
+        ctx.cov["golden_restored"] = ["FlowCore.lean"]
+        ctx.notes.append("flowcore translator could not parse the source; golden Gen/FlowCore.lean used")
+        ctx.cov["gen_equals_golden"] = same
+        return regions
+    if common.write_if_changed(common.LEAN / "SparkxVerif/Gen/FlowCore.lean", ctext):
+        ctx.notes.append("Gen/FlowCore.lean regenerated (source differs from last run)")
+    ctx.cov["gen_equals_golden"] = same and gcore.exists() and gcore.read_text() == ctext
+    ctx.cov["gen_core_equals_golden"] = gcore.exists() and gcore.read_text() == ctext
+    return regions + cregions
 
 
 # ------------------------------------------------------------------ real code access
@@ -479,7 +504,8 @@ def correspond(ctx):
                 "particle inside and one outside some bin; distinct by canonical input")
     _correspond_tables(ctx)
     ncases = ctx.n(90, 2500)
-    lines, meta = [], []
+    lines, meta, glines, glines2 = [], [], [], []
+    gstat = dict(same=0, judged=0)
     # ---- phase 1: everything except the event-plane ops that need the scipy value
     for i in range(ncases):
         case = gen_case(rng)
@@ -494,20 +520,18 @@ def correspond(ctx):
         case["edges"] = edges
         sf, sr = enc_sample(pf, n), enc_sample(pr, n)
         head = f"{n}\t{case['weight']}\t{f2h(case['gap'])}\t{1 if case['self_corr'] else 0}"
-        lines.append(f"rp\t{sf}")
-        meta.append(("rp", case, pf, pr))
-        lines.append(f"rpd\t{case['sel']}\t{common.fl(edges)}\t{sf}")
-        meta.append(("rpd", case, pf, pr))
-        lines.append(f"sp\t{head}\t{sf}\t{sr}")
-        meta.append(("sp", case, pf, pr))
-        lines.append(f"spd\t{head}\t{case['sel']}\t{common.fl(edges)}\t{sf}\t{sr}")
-        meta.append(("spd", case, pf, pr))
-        lines.append(f"eprn\t{n}\t{case['weight']}\t{f2h(case['gap'])}\t{sr}")
-        meta.append(("eprn", case, pf, pr))
-    outs = common.run_driver("C12", lines)
+        for op, args in (("rp", sf), ("rpd", f"{case['sel']}\t{common.fl(edges)}\t{sf}"), ("sp", f"{head}\t{sf}\t{sr}"),
+                         ("spd", f"{head}\t{case['sel']}\t{common.fl(edges)}\t{sf}\t{sr}"),
+                         ("eprn", f"{n}\t{case['weight']}\t{f2h(case['gap'])}\t{sr}")):
+            lines.append(f"{op}\t{args}")
+            meta.append((op, case, pf, pr))
+            glines.append(f"g{op}\t{args}")     # the same op on the functions generated from the current source
+    allouts = common.run_driver("C12", lines + glines)
+    outs, gouts = allouts[:len(lines)], allouts[len(lines):]
     lines2, meta2 = [], []
-    for (op, case, pf, pr), out in zip(meta, outs):
+    for (op, case, pf, pr), out, gout in zip(meta, outs, gouts):
         n = case["n"]
+        _judge_generated(ctx, gstat, _compare_phase1, op, case, pf, pr, out, gout)
         canon = (op, n, case["weight"], case["gap"], case["self_corr"], case["sel"], tuple(case.get("edges", ())),
                  tuple(tuple(e) for e in case["flow"]), tuple(tuple(e) for e in case["ref"]))
         nontriv = _nontrivial(case, pf, pr, op)
@@ -527,13 +551,16 @@ def correspond(ctx):
             case["resval"] = resval
             sf, sr = enc_sample(pf, n), enc_sample(pr, n)
             head = f"{n}\t{case['weight']}\t{f2h(case['gap'])}\t{1 if case['self_corr'] else 0}\t{f2h(resval)}"
-            lines2.append(f"ep\t{head}\t{sf}\t{sr}")
-            meta2.append(("ep", case, pf, pr))
-            lines2.append(f"epd\t{head}\t{case['sel']}\t{common.fl(case['edges'])}\t{sf}\t{sr}")
-            meta2.append(("epd", case, pf, pr))
+            for op2, args in (("ep", f"{head}\t{sf}\t{sr}"),
+                              ("epd", f"{head}\t{case['sel']}\t{common.fl(case['edges'])}\t{sf}\t{sr}")):
+                lines2.append(f"{op2}\t{args}")
+                meta2.append((op2, case, pf, pr))
+                glines2.append(f"g{op2}\t{args}")
     # ---- phase 2: event plane with the scipy value of the resolution correction
-    outs2 = common.run_driver("C12", lines2) if lines2 else []
-    for (op, case, pf, pr), out in zip(meta2, outs2):
+    allouts2 = common.run_driver("C12", lines2 + glines2) if lines2 else []
+    outs2, gouts2 = allouts2[:len(lines2)], allouts2[len(lines2):]
+    for (op, case, pf, pr), out, gout in zip(meta2, outs2, gouts2):
+        _judge_generated(ctx, gstat, _compare_ep, op, case, pf, pr, out, gout)
         canon = (op, case["n"], case["weight"], case["gap"], case["self_corr"], case["sel"], tuple(case["edges"]),
                  tuple(tuple(e) for e in case["flow"]), tuple(tuple(e) for e in case["ref"]))
         ctx.count(f"{op}/events={len(pf)}/w={case['wmode']}")
@@ -546,6 +573,7 @@ def correspond(ctx):
             bad = f"real code raised {type(e).__name__}: {e}"
         if bad:
             ctx.brk("correspondence-broken", f"{op}: {bad}", case=_case_json(case, op))
+    ctx.cov["generated_core_ops"] = dict(bitwise_equal_to_model=gstat["same"], judged_against_real_code=gstat["judged"])
     if SKIPS["n"]:
         ctx.count("skipped-no-private-access", SKIPS["n"])
         ctx.notes.append("the optional cross-check of the resolution against the object's private __calculate_reference was "
@@ -564,6 +592,22 @@ def correspond(ctx):
                            "model; its value at the model's Rn is computed by the harness and checked against the real code's resolution")
     ctx.assumptions.append("phi -> u = exp(i n phi) is evaluated by the harness on the real Particle objects; particles with "
                            "|px|,|py| < 1e-6 (phi() defined as 0) are outside the generated domain")
+
+
+def _judge_generated(ctx, gstat, compare, op, case, pf, pr, out, gout):
+    """tie C on top of tie T: the functions generated from the current source (driver ops `g<op>`) against the real code.
+    When the generated function printed exactly what the model printed its verdict is the model's (judged just after);
+    otherwise it is compared with the real code on its own."""
+    if gout == out:
+        gstat["same"] += 1
+        return
+    gstat["judged"] += 1
+    try:
+        bad = compare(op, case, pf, pr, gout)
+    except Exception as e:
+        bad = f"real code raised {type(e).__name__}: {e}"
+    if bad:
+        ctx.brk("correspondence-broken", f"g{op} (generated from the current source): {bad}", case=_case_json(case, "g" + op))
 
 
 def _case_json(case, op):
